@@ -88,6 +88,14 @@ public:
    /// @since  1.15.0, 16.03.2018
    std::string getAttribute( const std::string& attr_name) const;
 
+   /// Returns if an attribute with the given name exists, whatever its value
+   /// (an existing attribute may have an empty value).
+   ///
+   /// @param[in]  attr_name
+   ///    The name of the attribute to look for.
+   /// @return  \c true if an attribute with this name is stored.
+   bool hasAttribute( const std::string& attr_name) const;
+
    /// Removes the atribute that was added last.
    ///
    /// @since  1.15.0, 16.03.2018
